@@ -9,6 +9,9 @@ out-of-region access (C12) shows up.  The SSA program is emitted as Coq data
 (Sym/Wexpr.v `prog`) and re-checked there for all inputs."""
 
 
+import re
+
+
 class Stuck(Exception):
     pass
 
@@ -37,6 +40,8 @@ class Builder:
     def __init__(self):
         self.in_widths = []
         self.body = []          # wexpr strings
+        self.fns = []           # parallel: python evaluators (ins, tmps) -> int, for layout discovery / counter-example search
+        self.widths = []
         self.cse = {}
         self.leak = []          # control-flow / address trace (all concrete): for C11 evidence
 
@@ -48,10 +53,29 @@ class Builder:
     def const(self, w, n):
         return V(w, n & mask(w))
 
-    def _emit(self, w, text):
+    def acc(self, v):
+        """python accessor for a value: (ins, tmps) -> int"""
+        if v.is_conc():
+            c = v.conc
+            return lambda ins, tmps: c
+        m = re.match(r"\(W(In|Tmp) (\d+)\)", v.ref)
+        i = int(m.group(2))
+        if m.group(1) == "In":
+            return lambda ins, tmps: ins[i]
+        return lambda ins, tmps: tmps[i]
+
+    def evaluate(self, ins, outs):
+        tmps = []
+        for f in self.fns:
+            tmps.append(f(ins, tmps))
+        return [self.acc(o)(ins, tmps) for o in outs]
+
+    def _emit(self, w, text, fn=None):
         if text in self.cse:
             return V(w, None, self.cse[text])
         self.body.append(text)
+        self.fns.append(fn)
+        self.widths.append(w)
         ref = "(WTmp %d)" % (len(self.body) - 1)
         self.cse[text] = ref
         return V(w, None, ref)
@@ -65,7 +89,8 @@ class Builder:
             raise Stuck("width mismatch in %s: %d vs %d" % (name, a.w, b.w))
         if a.is_conc() and b.is_conc():
             return self.const(a.w, f(a.conc, b.conc))
-        return self._emit(a.w, "(%s %s %s)" % (name, self.ref(a), self.ref(b)))
+        fa, fb, m = self.acc(a), self.acc(b), mask(a.w)
+        return self._emit(a.w, "(%s %s %s)" % (name, self.ref(a), self.ref(b)), lambda ins, tmps: f(fa(ins, tmps), fb(ins, tmps)) & m)
 
     def xor(self, a, b):
         if a.is_conc() and a.conc == 0:
@@ -97,7 +122,8 @@ class Builder:
     def not_(self, a):
         if a.is_conc():
             return self.const(a.w, ~a.conc)
-        return self._emit(a.w, "(WNot %s)" % a.ref)
+        fa, m = self.acc(a), mask(a.w)
+        return self._emit(a.w, "(WNot %s)" % a.ref, lambda ins, tmps: ~fa(ins, tmps) & m)
 
     def shl(self, a, k):
         if k == 0:
@@ -106,7 +132,8 @@ class Builder:
             return self.const(a.w, 0)
         if a.is_conc():
             return self.const(a.w, a.conc << k)
-        return self._emit(a.w, "(WShl %d %s)" % (k, a.ref))
+        fa, m = self.acc(a), mask(a.w)
+        return self._emit(a.w, "(WShl %d %s)" % (k, a.ref), lambda ins, tmps: (fa(ins, tmps) << k) & m)
 
     def lshr(self, a, k):
         if k == 0:
@@ -115,7 +142,8 @@ class Builder:
             return self.const(a.w, 0)
         if a.is_conc():
             return self.const(a.w, a.conc >> k)
-        return self._emit(a.w, "(WShr %d %s)" % (k, a.ref))
+        fa = self.acc(a)
+        return self._emit(a.w, "(WShr %d %s)" % (k, a.ref), lambda ins, tmps: fa(ins, tmps) >> k)
 
     def rotr(self, a, k):
         k %= a.w
@@ -123,7 +151,8 @@ class Builder:
             return a
         if a.is_conc():
             return self.const(a.w, (a.conc >> k) | (a.conc << (a.w - k)))
-        return self._emit(a.w, "(WRotr %d %s)" % (k, a.ref))
+        fa, m, w = self.acc(a), mask(a.w), a.w
+        return self._emit(a.w, "(WRotr %d %s)" % (k, a.ref), lambda ins, tmps: ((fa(ins, tmps) >> k) | (fa(ins, tmps) << (w - k))) & m)
 
     def rotl(self, a, k):
         return self.rotr(a, (a.w - k % a.w) % a.w)
@@ -135,7 +164,8 @@ class Builder:
             raise Stuck("zext to a smaller width")
         if a.is_conc():
             return self.const(w, a.conc)
-        return self._emit(w, "(WZext %d %s)" % (w, a.ref))
+        fa = self.acc(a)
+        return self._emit(w, "(WZext %d %s)" % (w, a.ref), lambda ins, tmps: fa(ins, tmps))
 
     def trunc(self, a, w):
         if w == a.w:
@@ -144,12 +174,14 @@ class Builder:
             raise Stuck("trunc to a larger width")
         if a.is_conc():
             return self.const(w, a.conc)
-        return self._emit(w, "(WTrunc %d %s)" % (w, a.ref))
+        fa, m = self.acc(a), mask(w)
+        return self._emit(w, "(WTrunc %d %s)" % (w, a.ref), lambda ins, tmps: fa(ins, tmps) & m)
 
     def concat(self, hi, lo):
         if hi.is_conc() and lo.is_conc():
             return self.const(hi.w + lo.w, (hi.conc << lo.w) | lo.conc)
-        return self._emit(hi.w + lo.w, "(WConcat %s %s)" % (self.ref(hi), self.ref(lo)))
+        fh, fl, lw = self.acc(hi), self.acc(lo), lo.w
+        return self._emit(hi.w + lo.w, "(WConcat %s %s)" % (self.ref(hi), self.ref(lo)), lambda ins, tmps: (fh(ins, tmps) << lw) | fl(ins, tmps))
 
     def byte_of(self, v, k):
         """bits [8k, 8k+8) of v"""
